@@ -9,6 +9,7 @@ func init() {
 }
 
 type c01queries struct {
+	ids  [][]byte // additional point / prefix / lower-bound queries on the primary index
 	qid  []byte
 	qtag []byte
 	qpfx []byte
@@ -27,6 +28,11 @@ func c01observe(d *vdb, txn ReadTxn, q *c01queries, withLPM bool) *observation {
 	o.addGet(t.Get(txn, vIDIndex.Query(q.qid)))
 	o.addSeq(t.Prefix(txn, vIDIndex.Query(q.qid)))
 	o.addSeq(t.LowerBound(txn, vIDIndex.Query(q.qid)))
+	for _, id := range q.ids {
+		o.addGet(t.Get(txn, vIDIndex.Query(id)))
+		o.addSeq(t.Prefix(txn, vIDIndex.Query(id)))
+		o.addSeq(t.LowerBound(txn, vIDIndex.Query(id)))
+	}
 	o.addSeq(t.List(txn, vTagsIndex.Query(q.qtag)))
 	o.addGet(t.Get(txn, vTagsIndex.Query(q.qtag)))
 	o.addSeq(t.Prefix(txn, vTagsIndex.Query(q.qtag)))
@@ -71,9 +77,13 @@ func VerifC01Snapshots() {
 	// IDSET=1: primary keys that are prefixes of one another ("a","ab","abc"); the
 	// symbolic writes then pick their key from this list
 	idset := [][]byte{[]byte("a"), []byte("ab"), []byte("abc")}
+	if vnd.Param("IDSET", 0) == 2 {
+		// "a" holds a value and has exactly one child; "x" keeps it away from the root
+		idset = [][]byte{[]byte("a"), []byte("ab"), []byte("x")}
+	}
 	for i := 0; i < PRE; i++ {
 		id := []byte{byte('b' + 2*i)}
-		if vnd.Param("IDSET", 0) == 1 {
+		if vnd.Param("IDSET", 0) >= 1 {
 			id = idset[i%len(idset)]
 		}
 		d.table.Insert(w, &vobj{id: id, tags: [][]byte{{'t'}}, pfx: []byte{0x10}, plen: 4, val: uint64(i)})
@@ -84,6 +94,9 @@ func VerifC01Snapshots() {
 	// entry is observed) plus point queries with concrete keys; SYMQ=1 makes the
 	// primary-index query key symbolic as well.
 	q := &c01queries{qid: []byte{'b'}, qtag: []byte{'t'}, qpfx: []byte{0x10}, qpl: 4, qrev: 0}
+	if vnd.Param("IDSET", 0) >= 1 {
+		q.ids = idset
+	}
 	if vnd.Param("SYMQ", 0) == 1 {
 		q.qid = vnd.Bytes("qid", L)
 	}
@@ -97,7 +110,7 @@ func VerifC01Snapshots() {
 		w := d.db.WriteTxn(d.table)
 		for wi := 0; wi < vnd.Param("WPT", 1); wi++ { // writes per transaction
 			var k []byte
-			if vnd.Param("IDSET", 0) == 1 {
+			if vnd.Param("IDSET", 0) >= 1 {
 				k = idset[vnd.IntRange("kid", 0, len(idset)-1)]
 			} else {
 				k = vnd.Bytes("k", L)
